@@ -163,8 +163,7 @@ def known_id(case, r, det=None):
         if math.dist(det["a"], p1) > 1e-6 * L:
             return "F10"
         return None
-    if fn == "point_to_ellipsoid" and agrees and ellipsoid_newton_scale(case) < 1e-8:
-        return "FD6"              # small ellipsoid: the absolute test |s| < 1e-16 stops Newton's method at once
+    # FD6 (point_to_ellipsoid absolute Newton stop) is FIXED in /repo: no routing; its replay is in corpus/C11
     if fn == "disk_to_disk" and agrees:
         cls = disk_class(case)
         d, p1, p2 = c10.result_points(case, r)
